@@ -8,6 +8,7 @@ import KlogV.Gen.GoSrc
 import KlogV.Gen.GoTxt
 import KlogV.Gen.GoPar
 import KlogV.Gen.GoCal
+import KlogV.Gen.GoFmt
 import KlogV.Gen.Regexes
 import KlogV.GoSem.RxSpec
 open KlogV
@@ -120,6 +121,12 @@ def handleGs (args : List String) : Option String :=
     some (s!"wd={gsInt x.Weekday} q={gsInt x.Quarter} wk={match x.WeekNumber with | .ok (a, b) => s!"{a}-{b}" | _ => "!"} " ++
       s!"week={per (GoCal.Week.Period ⟨x⟩)} month={per (GoCal.Month.Period ⟨x⟩)} quarter={per (GoCal.Quarter.Period ⟨x⟩)} year={per (GoCal.Year.Period ⟨x⟩)}")
   | ["rx.groups", name, n, h] => some (rxGroupsLine name n.toNat! (decodeGo (bytesOfHex h)))
+  | ["gs.reflow", n, h, pfx] =>
+    let prefixes : List Go.BStr := if pfx == "none" then [] else (pfx.splitOn ",").map bytesOfHex
+    some (match (⟨n.toInt!, [10]⟩ : GoFmt.Reflower).Reflow (bytesOfHex h) prefixes with
+      | .ok t => "ok " ++ hexOrDash (hexOfBytes t)
+      | .error (.err m) => "err " ++ m
+      | .error .panic => "panic")
   | ["gs.translated"] => some (" ".intercalate GoSrc.translated)
   | _ => none
 
